@@ -13,13 +13,19 @@ TIERS = {
     'C03': {'quick': dict(nruns=1200, wall_cap=800), 'thorough': dict(nruns=25000, wall_cap=3300)},
     'C11': {'quick': dict(nruns=1600, wall_cap=800), 'thorough': dict(nruns=30000, wall_cap=3300)},
     'C13': {'quick': dict(nruns=1500, wall_cap=800), 'thorough': dict(nruns=40000, wall_cap=3300)},
-    'C20': {'quick': dict(nruns=8000, wall_cap=800), 'thorough': dict(nruns=200000, wall_cap=3300)},
+    'C20': {'quick': dict(nruns=5000, wall_cap=800), 'thorough': dict(nruns=90000, wall_cap=3300)},
     'C08': {'quick': dict(nruns=3000, wall_cap=800), 'thorough': dict(nruns=80000, wall_cap=3300)},
 }
 DEFAULT_SEED = {'quick': 20260923, 'thorough': 977}
 
 
+def _on_term(signum, frame):
+    raise SystemExit(143)      # run atexit handlers (scratch cleanup)
+
+
 def main(argv):
+    import signal
+    signal.signal(signal.SIGTERM, _on_term)
     if not argv or argv[0] in ('-h', '--help'):
         print(__doc__ or 'usage: check <PROPERTY>|replay|selftest|list ...')
         return 0
